@@ -14,6 +14,8 @@ mod gen;
 mod hostile;
 mod ident;
 mod monitors;
+mod monitors_batch;
+mod monitors_sync;
 mod net;
 mod obs;
 mod rng;
@@ -68,6 +70,16 @@ fn main() {
                     println!("HARNESS-ERROR: unknown property {}", prop);
                     2
                 }
+            }
+        }
+        Some("survey") => {
+            // hsim survey <prop> <runs> [thorough]
+            let prop = args.get(2).cloned().unwrap_or_default();
+            let runs: usize = args.get(3).and_then(|s| s.parse().ok()).unwrap_or(100);
+            let thorough = args.get(4).map_or(false, |s| s == "thorough");
+            match props::find(&prop) {
+                Some(spec) => batch::survey(&spec, env_u64("VERIF_SEED", 20260922), runs, thorough, env_u64("HSIM_THREADS", 16) as usize),
+                None => 2,
             }
         }
         Some("replay") => match args.get(2) {
